@@ -3,6 +3,7 @@ package graph
 import (
 	"context"
 	"strconv"
+	"time"
 
 	openfgav1 "github.com/openfga/api/proto/openfga/v1"
 	"google.golang.org/protobuf/types/known/structpb"
@@ -111,8 +112,20 @@ func VerifE01Check() {
 	if b := vt.ParamInt("breadth", 0); b > 0 {
 		opts = append(opts, WithResolveNodeBreadthLimit(uint32(b)))
 	}
-	checker := NewLocalChecker(opts...)
-	defer checker.Close()
+	localChecker := NewLocalChecker(opts...)
+	defer localChecker.Close()
+	var checker CheckResolver = localChecker
+	var qc *verifK08Cache
+	if vt.ParamInt("qcache", 0) == 1 {
+		// C08: the real CachedCheckResolver in front of the engine (every dispatched sub-problem goes through it);
+		// entries never expire within a harness run. Together with prior=1 / repeat=1 the cache is warm.
+		qc = &verifK08Cache{}
+		ccr, cerr := NewCachedCheckResolver(WithExistingCache(qc), WithCacheTTL(time.Hour))
+		vt.Assert(cerr == nil, "NewCachedCheckResolver failed")
+		ccr.SetDelegate(localChecker)
+		localChecker.SetDelegate(ccr)
+		checker = ccr
+	}
 	st.StubConditions()
 	var reqCtx *structpb.Struct
 	if !vt.Symbolic() {
@@ -129,7 +142,10 @@ func VerifE01Check() {
 	if vt.ParamInt("prior", 0) == 1 {
 		// history: an arbitrary OTHER request was answered first on the same typesystem and checker (their
 		// memo tables, planner state and caches are warm); it must not influence the answer below
-		pi := vt.Choose("prior", len(reqs))
+		pi := vt.ParamInt("priorreq", -1) // pinned by jobs that split the (prior, request) pairs
+		if pi < 0 || pi >= len(reqs) {
+			pi = vt.Choose("prior", len(reqs))
+		}
 		pq := reqs[pi]
 		vt.Event("prior check " + pq.obj + "#" + pq.rel + "@" + pq.user)
 		preq, _ := NewResolveCheckRequest(ResolveCheckRequestParams{
@@ -164,6 +180,9 @@ func VerifE01Check() {
 			}
 		}
 		return
+	}
+	if qc != nil && len(qc.ks) > 0 {
+		vt.Reach("query-cache-warm")
 	}
 	resp, cerr := checker.ResolveCheck(ctx, req)
 
